@@ -23,7 +23,19 @@ pub fn run_in_child(case: &Case, want_log: bool, timeout_s: u32) -> RunResult {
             libc::close(fds[0]);
             libc::alarm(timeout_s);
         }
-        let res = std::panic::catch_unwind(|| crate::run::run_case(case, want_log));
+        // On a fresh thread: thread-local random state (std's hash-map keys) must not be
+        // inherited from whatever the parent process happened to do before the fork, or the run
+        // would depend on the invocation (batch worker vs replay) and not on the case alone.
+        let case2 = case.clone();
+        let res = std::thread::Builder::new()
+            .name("main".into())
+            .stack_size(256 << 20)
+            .spawn(move || {
+                std::panic::catch_unwind(|| crate::run::run_case(&case2, want_log))
+            })
+            .map_err(|_| ())
+            .and_then(|h| h.join().map_err(|_| ()))
+            .and_then(|r| r.map_err(|_| ()));
         let res = match res {
             Ok(r) => r,
             Err(_) => harness_err(
@@ -116,7 +128,7 @@ pub fn parallel_eval(
                     break;
                 }
                 let case = make(i);
-                let res = run_in_child(&case, false, timeout_s);
+                let res = run_in_child(&case, std::env::var_os("RLSIM_WANT_LOG").is_some(), timeout_s);
                 // keep the case only when something fired (it can be regenerated otherwise)
                 let keep_case = !res.violations.is_empty() || res.harness_error.is_some();
                 let line = serde_json::to_string(&(i, keep_case.then_some(&case), &res)).unwrap();
